@@ -114,6 +114,11 @@ fn escape_regex(lit: &str) -> String {
         .replace('^', "\\^")
         .replace('$', "\\$")
         .replace('/', "\\/")
+        // line terminators cannot appear in a regular expression literal
+        .replace('\n', "\\n")
+        .replace('\r', "\\r")
+        .replace('\u{2028}', "\\u2028")
+        .replace('\u{2029}', "\\u2029")
 }
 
 impl TplLitTypeItem {
